@@ -45,13 +45,48 @@ type recSession struct {
 }
 
 type recManager struct {
-	live   map[string][]*bgp.Advertisement // session name -> last Set
+	live   map[string][]*bgp.Advertisement // session name -> last Set (the very objects, as the native session keeps them)
+	given  map[string][]string             // what those objects said at the moment of the Set call
 	params map[string]bgp.SessionParameters
+	extra  string // last SyncExtraInfo
 	errs   []string
 }
 
+// adExact renders an advertisement exactly as given (community order included).
+func adExact(a *bgp.Advertisement) string {
+	var cs []string
+	for _, c := range a.Communities {
+		cs = append(cs, c.String())
+	}
+	return fmt.Sprintf("%s lp=%d comm=%s peers=%v", a.Prefix.String(), a.LocalPref, strings.Join(cs, ","), a.Peers)
+}
+
+// mutated reports advertisements whose content changed after they were handed to Set (a session keeps the objects
+// and compares later requests with them).
+func (m *recManager) mutated() string {
+	for name, ads := range m.live {
+		for i, a := range ads {
+			if i < len(m.given[name]) && adExact(a) != m.given[name][i] {
+				return fmt.Sprintf("session %s: an advertisement handed to Set as %q now reads %q", name, m.given[name][i], adExact(a))
+			}
+		}
+	}
+	return ""
+}
+
+// requests: per session the multiset of exact requests.
+func (m *recManager) requests() map[string][]string {
+	out := map[string][]string{}
+	for name := range m.live {
+		l := append([]string(nil), m.given[name]...)
+		sort.Strings(l)
+		out[name] = l
+	}
+	return out
+}
+
 func newRecManager() *recManager {
-	return &recManager{live: map[string][]*bgp.Advertisement{}, params: map[string]bgp.SessionParameters{}}
+	return &recManager{live: map[string][]*bgp.Advertisement{}, given: map[string][]string{}, params: map[string]bgp.SessionParameters{}}
 }
 
 func (m *recManager) NewSession(_ log.Logger, args bgp.SessionParameters) (bgp.Session, error) {
@@ -63,7 +98,7 @@ func (m *recManager) NewSession(_ log.Logger, args bgp.SessionParameters) (bgp.S
 	return &recSession{m, args.SessionName}, nil
 }
 func (m *recManager) SyncBFDProfiles(map[string]*config.BFDProfile) error { return nil }
-func (m *recManager) SyncExtraInfo(string) error                          { return nil }
+func (m *recManager) SyncExtraInfo(e string) error                        { m.extra = e; return nil }
 func (m *recManager) SetEventCallback(func(interface{}))                  {}
 
 func (s *recSession) Close() error {
@@ -79,7 +114,20 @@ func (s *recSession) Set(advs ...*bgp.Advertisement) error {
 		s.m.errs = append(s.m.errs, "Set on closed session "+s.name)
 		return nil
 	}
+	// the objects of the previous request must still say what they said then: the session compares the new request
+	// with them to decide what to send
+	for i, a := range s.m.live[s.name] {
+		if i < len(s.m.given[s.name]) && adExact(a) != s.m.given[s.name][i] {
+			s.m.errs = append(s.m.errs, fmt.Sprintf("session %s: an advertisement handed to Set as %q was changed to %q before the next Set", s.name, s.m.given[s.name][i], adExact(a)))
+			break
+		}
+	}
 	s.m.live[s.name] = append([]*bgp.Advertisement(nil), advs...)
+	var g []string
+	for _, a := range advs {
+		g = append(g, adExact(a))
+	}
+	s.m.given[s.name] = g
 	return nil
 }
 
@@ -154,6 +202,11 @@ var spkCommunityCR = vw.CommunitySpec{Name: "comms", Aliases: [][2]string{{"alia
 func spkAdvs(rt *rapid.T, c *vw.ClusterSpec) {
 	c.L2, c.BGP, c.Peers = nil, nil, nil
 	c.Comms = []vw.CommunitySpec{spkCommunityCR}
+	// BFD profiles, some of them referenced by no peer (created ahead of their peers)
+	c.BFD = nil
+	for i, k := 0, rapid.SampledFrom([]int{0, 0, 1, 2}).Draw(rt, "nbfd"); i < k; i++ {
+		c.BFD = append(c.BFD, vw.BFDSpec{Name: fmt.Sprintf("bfd%d", i), Rx: rapid.SampledFrom([]uint32{0, 100, 300}).Draw(rt, "bfdRx")})
+	}
 	for i, k := 0, rapid.IntRange(0, 2).Draw(rt, "nl2"); i < k; i++ {
 		a := vw.L2AdvSpec{Name: fmt.Sprintf("l2adv%d", i)}
 		if rapid.IntRange(0, 2).Draw(rt, "l2nodeK") == 0 {
@@ -184,6 +237,9 @@ func spkAdvs(rt *rapid.T, c *vw.ClusterSpec) {
 		if rapid.IntRange(0, 3).Draw(rt, "peerPassword") == 0 {
 			p.Password = fmt.Sprintf("pw%d", i)
 		}
+		if len(c.BFD) > 0 && rapid.IntRange(0, 2).Draw(rt, "peerBFD") == 0 {
+			p.BFD = c.BFD[0].Name
+		}
 		c.Peers = append(c.Peers, p)
 	}
 	lp := rapid.SampledFrom([]uint32{0, 100}).Draw(rt, "lp")
@@ -206,7 +262,7 @@ func spkAdvs(rt *rapid.T, c *vw.ClusterSpec) {
 			a.Agg6 = rapid.SampledFrom([]int{128, 127, 124, 120}).Draw(rt, "agg6")
 		}
 		if rapid.IntRange(0, 2).Draw(rt, "commK") == 0 {
-			a.Communities = rapid.SampledFrom([][]string{{"65000:1"}, {"65000:2", "65000:1"}, {"large:1:2:3"}, {"alias1"}, {"64512:666", "65000:1"}, {"0100:0200"}, {"large:0064512:010:07", "alias1"}}).Draw(rt, "comms")
+			a.Communities = rapid.SampledFrom([][]string{{"65000:1"}, {"65000:2", "65000:1"}, {"large:1:2:3"}, {"alias1"}, {"64512:666", "65000:1"}, {"0100:0200"}, {"large:0064512:010:07", "alias1"}, {"large:64512:2:0", "large:64512:1:0"}, {"large:64512:1:5", "large:64512:3:0", "65000:1"}}).Draw(rt, "comms")
 		}
 		if len(c.Peers) > 0 && rapid.IntRange(0, 2).Draw(rt, "peersK") == 0 {
 			for _, p := range c.Peers {
@@ -335,7 +391,7 @@ func genSpkCase(rt *rapid.T) spkCase {
 			cur.Nodes = append(append([]vw.NodeSpec(nil), cur.Nodes...), n)
 		case k <= 17:
 			op.Kind = "config"
-			n := vw.ClusterSpec{Pools: cur.Pools, Nodes: cur.Nodes, Comms: cur.Comms}
+			n := vw.ClusterSpec{Pools: cur.Pools, Nodes: cur.Nodes, Comms: cur.Comms, BFD: cur.BFD}
 			switch rapid.IntRange(0, 3).Draw(rt, "cfgK") {
 			case 0:
 				n.Pools = spkPools(rt)
@@ -349,6 +405,10 @@ func genSpkCase(rt *rapid.T) spkCase {
 				n.L2, n.BGP, n.Peers = cur.L2, cur.BGP, cur.Peers
 			default:
 				spkAdvs(rt, &n)
+			}
+			n.Extras = cur.Extras
+			if rapid.IntRange(0, 3).Draw(rt, "extrasK") == 0 {
+				n.Extras = rapid.SampledFrom([]string{"", "# extra A", "# extra B"}).Draw(rt, "extras")
 			}
 			op.Cluster = &n
 			cur = n
@@ -852,6 +912,12 @@ func (r *spkRun) atQuiescence(label string) *vw.Violation {
 					label, p.Name, rid, par.MyASN, par.PeerASN, par.PeerAddress, par.Password, p.RouterID, p.MyASN, p.ASN, p.Address, p.Password)
 			}
 		}
+		if m := r.sim.rec.mutated(); m != "" {
+			return vw.Violationf("advertisement-mutated-after-set", "%s: %s", label, m)
+		}
+		if r.sim.rec.extra != r.sim.cfgSeen.Extras {
+			return vw.Violationf("bgp-extras", "%s: the BGP backend was last given the extra configuration %q, the accepted configuration carries %q", label, r.sim.rec.extra, r.sim.cfgSeen.Extras)
+		}
 		if !reflect.DeepEqual(got.PeersFor, wantP) {
 			return vw.Violationf("bgp-peers-for-service", "%s: PeersForService reports %v, expected %v (routes per peer %v)", label, got.PeersFor, wantP, got.Sessions).WithSig(peersSig(got.PeersFor, wantP, got.Sessions))
 		}
@@ -950,6 +1016,18 @@ func (r *spkRun) atQuiescence(label string) *vw.Violation {
 			if !reflect.DeepEqual(got.PeersFor, fresh.PeersFor) {
 				return vw.Violationf("bgp-peers-depend-on-history", "%s: PeersForService %v vs fresh speaker %v", label, got.PeersFor, fresh.PeersFor).WithSig("peers-for-service-stale")
 			}
+		}
+	}
+	if r.j05 {
+		// re-processing everything once more without any change must hand every session the very same request
+		// (order of communities included): otherwise the backend sees a "new" configuration and reloads
+		before := r.sim.rec.requests()
+		r.sim.enqueue("reload")
+		if v := r.sim.settle(); v != nil {
+			return v
+		}
+		if after := r.sim.rec.requests(); !reflect.DeepEqual(before, after) {
+			return vw.Violationf("resubmission-differs", "%s: a full re-sync of the unchanged state changed what is requested on the sessions: before %v, after %v", label, before, after)
 		}
 	}
 	return nil
@@ -1305,5 +1383,19 @@ func TestVerifC15Spk(t *testing.T) {
 // id of its own peer).
 func TestVerifC16Spk(t *testing.T) {
 	vw.Run(t, vw.Options{Property: "C16", Engine: "speaker-requests", Rule: spkRule + "; at every quiescence the advertisements requested on every live session (prefix, local preference, communities incl. aliases and zero-padded literals) and the parameters every session was created with (router id, ASNs, address, password) are compared with the closed form; non-trivial as C05", Assumptions: spkAssumptions},
+		genSpkCase, func(c spkCase, tr *vw.Trace) *vw.Violation { return runSpk(c, tr, true, true) })
+}
+
+// C17 end to end (front half): the native session converges to what was last requested on it; this engine judges that
+// the speaker really requests a changed route again (fresh objects - the session keeps the ones it was given and
+// compares later requests with them).
+func TestVerifC17Spk(t *testing.T) {
+	vw.Run(t, vw.Options{Property: "C17", Engine: "speaker-requests", Rule: spkRule + "; at every quiescence the advertisements requested on every live session are compared with the closed form and with fresh speakers, and no advertisement object may have changed after it was handed to Set; non-trivial as C05", Assumptions: spkAssumptions},
+		genSpkCase, func(c spkCase, tr *vw.Trace) *vw.Violation { return runSpk(c, tr, true, true) })
+}
+
+// C19 end to end (front half): a resubmission of an unchanged state must be identical, or the backend reloads.
+func TestVerifC19Spk(t *testing.T) {
+	vw.Run(t, vw.Options{Property: "C19", Engine: "speaker-resubmission", Rule: spkRule + "; at every quiescence everything is re-processed once more without any change: every session must be handed exactly the same request (order of communities included) and the same extra configuration, and what was requested must match the closed form (a withdrawn extra configuration must be submitted as withdrawn); non-trivial as C05", Assumptions: spkAssumptions},
 		genSpkCase, func(c spkCase, tr *vw.Trace) *vw.Violation { return runSpk(c, tr, true, true) })
 }
